@@ -97,7 +97,21 @@ fn exec_guarded<P: Property>(plan: &P::Plan, st: &mut Stats) -> Option<Violation
         let h = std::thread::Builder::new().stack_size(4 << 20).spawn_scoped(sc, || {
             match std::panic::catch_unwind(std::panic::AssertUnwindSafe(|| P::execute(plan, st))) {
                 Ok(v) => v,
-                Err(_) => Some(Violation { class: "HARNESS-PANIC".into(), detail: crate::exec::take_panic() }),
+                Err(_) => {
+                    let p = crate::exec::take_panic();
+                    let in_code_under_test = ["h263/src/", "deblock/src/", "yuv/src/"].iter().any(|k| p.contains(k));
+                    if in_code_under_test {
+                        // the code under test panicked outside a guarded call (an accessor,
+                        // a look-ahead): a crash, i.e. C01's verdict; elsewhere the run just ends
+                        if P::ID == "C01" {
+                            Some(Violation { class: crate::exec::panic_class(&p), detail: format!("panic outside a decode call: {p}") })
+                        } else {
+                            None
+                        }
+                    } else {
+                        Some(Violation { class: "HARNESS-PANIC".into(), detail: p })
+                    }
+                }
             }
         });
         match h {
